@@ -14,4 +14,6 @@ def obligations(ctx, cfg):
            StepAck(ctx, no, 2, k, 'conserve', 'C01.a-ack'),
            StepModify(ctx, no, 2, k, 'conserve', 'C01.a-modify'),
            StepExpire(ctx, no, 2, 0, 'conserve', 'C01.a-expire')]
+    from props.actor_steps import ActorLoop
+    obs.append(ActorLoop(ctx, 2, 1, 2, True, 'conserve', 'C01.f-actor-loop'))
     return obs
